@@ -285,7 +285,7 @@ DOC = {
     "progress_bar": {"used": "any", "valid": _BOOL_VALID, "invalid": _BOOL_INVALID, "default": True},
     "log_level": {"used": "any", "valid": ["INFO", "WARN", "ERROR"], "invalid": [("enum", "LOUD"), ("enum", "info "), ("type", 5), ("type", True)],
                   "default": "INFO"},
-    "document_lang": {"used": "any", "valid": ["es-419", "en", "fr-CA", "de"], "invalid": [("type", 5), ("type", True), ("type", ["en"])],
+    "document_lang": {"used": "any", "valid": ["es-419", "en", "fr-CA", "de", ""], "invalid": [("type", 5), ("type", True), ("type", ["en"])],
                       "default": None},
   },
   "imsc_writer": {
